@@ -610,16 +610,21 @@ def spd(draw, n):
 
 @st.composite
 def composed_cases(draw):
-    kind = draw(st.sampled_from(["vnormal", "vt", "iid", "id", "mix"]))
+    kind = draw(st.sampled_from(["vnormal", "vt", "vskew", "miw", "iid", "id", "mix"]))
     ptype = draw(st.sampled_from(["Float64", "Real64"]))
     wrap = draw(st.sampled_from(["", "", "clone", "setget"]))
     rinit = draw(st.sampled_from([0.0, 0.0, 4.5, -2.0]))
     case = {"kind": kind, "ptype": ptype, "wrap": wrap, "rinit": rinit}
-    if kind in ("vnormal", "vt"):
+    if kind in ("vnormal", "vt", "vskew", "miw"):
         n = draw(st.integers(1, 3))
         case.update(n=n, mu=[draw(st.floats(-3, 3)) for _ in range(n)], sigma=draw(spd(n)),
                     nu=draw(st.one_of(logu(2.0, 30), st.sampled_from([2.0, 3.0, 5.0]))),
                     z=[[draw(st.floats(-4, 4)) for _ in range(n)] for _ in range(3)])
+        if kind == "vskew":
+            case.update(alpha=[draw(st.floats(-3, 3)) for _ in range(n)], scale=[draw(logu(0.3, 3)) for _ in range(n)])
+        if kind == "miw":
+            # degrees of freedom above n - 1, evaluation points: generated positive definite matrices
+            case.update(nu=n - 1 + draw(logu(0.2, 20)), xs=[draw(spd(n)) for _ in range(2)])
         return case
     k = draw(st.integers(1, 3))
     if kind == "iid":
@@ -639,6 +644,62 @@ def composed_cases(draw):
 def check_composed(case, srv, stats):
     kind = case["kind"]
     classes = ["kind=" + kind, "ptype=" + case["ptype"], "wrap=" + (case["wrap"] or "none")]
+    if kind == "miw":
+        n = case["n"]
+        p = [case["nu"]] + [v for row in case["sigma"] for v in row]
+        desc = "%sinverse Wishart dim %d (%s) [%s]" % ((case["wrap"] + ":") if case["wrap"] else "", n, p, case["ptype"])
+        xs = [v for X in case["xs"] for row in X for v in row]
+        got = values(vask(srv, "miw", p, n, xs, case["ptype"], case["wrap"], case["rinit"]), desc)
+        with mp.workdps(40):
+            S = mp.matrix(case["sigma"])
+            nu = mpf(case["nu"])
+            for X_, g in zip(case["xs"], got):
+                X = mp.matrix(X_)
+                lgn = mpf(n * (n - 1)) / 4 * mp.log(mp.pi) + mp.fsum(lg(nu / 2 + mpf(1 - j) / 2) for j in range(1, n + 1))
+                terms = [nu / 2 * mp.log(mp.det(S)), -nu * n / 2 * mp.log(2), -lgn, -(nu + n + 1) / 2 * mp.log(mp.det(X)),
+                         -sum((S * X ** -1)[i, i] for i in range(n)) / 2]
+                ref = mp.fsum(terms)
+                sc = 1 + mp.fsum(abs(t) for t in terms)
+                if math.isnan(g) or abs(mpf(g) - ref) > mpf(10) ** -9 * sc:
+                    # the recorded defect: the trace of the element-wise product of S and X^-1
+                    Xi = X ** -1
+                    bug = ref - terms[4] - sum(S[i, i] * Xi[i, i] for i in range(n)) / 2
+                    if not math.isnan(g) and abs(mpf(g) - bug) <= mpf(10) ** -9 * sc and stats.known("C14/inverse-wishart-trace-of-the-elementwise-product", desc):
+                        classes.append("known finding: element-wise trace")
+                        continue
+                    raise Violation("%s: LogPdf(%r) = %r, the textbook log-density is %s" % (desc, X_, g, mp.nstr(ref, 17)))
+        stats.case(desc, classes + ["dim=%d" % n], True)
+        return
+    if kind == "vskew":
+        n = case["n"]
+        # omega: the correlation matrix of sigma
+        sg = case["sigma"]
+        dd = [math.sqrt(sg[i][i]) for i in range(n)]
+        omega = [[sg[i][j] / (dd[i] * dd[j]) for j in range(n)] for i in range(n)]
+        p = list(case["mu"]) + [v for row in omega for v in row] + list(case["alpha"]) + list(case["scale"])
+        desc = "%sskew normal dim %d (%s) [%s]" % ((case["wrap"] + ":") if case["wrap"] else "", n, p, case["ptype"])
+        with mp.workdps(40):
+            K = mp.matrix([[mpf(case["scale"][i]) * mpf(case["scale"][j]) * mpf(omega[i][j]) for j in range(n)] for i in range(n)])
+            mu = mp.matrix(case["mu"])
+            Lc = mp.cholesky(K)
+            Ki = K ** -1
+            ld = mp.log(mp.det(K))
+            pts = [list(mu + Lc * mp.matrix(z)) for z in case["z"]]
+            xs = [float(v) for pt in pts for v in pt]
+            got = values(vask(srv, "vskew", p, n, xs, case["ptype"], case["wrap"], case["rinit"]), desc)
+            for i, g in enumerate(got):
+                x = mp.matrix([mpf(v) for v in xs[i * n:(i + 1) * n]])
+                d = x - mu
+                q = (d.T * Ki * d)[0]
+                az = mp.fsum(mpf(case["alpha"][k]) * d[k] / mpf(case["scale"][k]) for k in range(n))
+                lphi = mp.log(mp.erfc(-az / mp.sqrt(2)) / 2)
+                terms = [mp.log(2), -mpf(n) / 2 * mp.log(2 * mp.pi), -ld / 2, -q / 2, lphi]
+                ref = mp.fsum(terms)
+                sc = 1 + mp.fsum(abs(t) for t in terms)
+                if math.isnan(g) or abs(mpf(g) - ref) > mpf(10) ** -9 * sc:
+                    raise Violation("%s: LogPdf(%r) = %r, the textbook log-density is %s" % (desc, xs[i * n:(i + 1) * n], g, mp.nstr(ref, 17)))
+        stats.case(desc, classes + ["dim=%d" % n], True)
+        return
     if kind in ("vnormal", "vt"):
         n = case["n"]
         with mp.workdps(40):
@@ -844,6 +905,9 @@ WITNESSES = {
     "t_parameter_layout": (lambda srv: ("C14/t-distribution-getparameters-omits-nu",
                                          "r" not in vask(srv, "vt", [3.0, 0.5, 2.0], 1, [0.25], "Float64", "setget"),
                                          "SetParameters(GetParameters()) of a t distribution")),
+    "iwishart_trace": (lambda srv: (lambda r: ("C14/inverse-wishart-trace-of-the-elementwise-product", "r" not in r or abs(unhex(r["r"][0]) + 9.267518364991453) > 1e-6,
+                                                "inverse Wishart(3, [[1,.3],[.3,1]]).LogPdf([[2,-.3],[-.3,4]]) = %s (textbook -9.2675184)" % (unhex(r["r"][0]) if "r" in r else r)))(
+        vask(srv, "miw", [3.0, 1.0, 0.3, 0.3, 1.0], 2, [2.0, -0.3, -0.3, 4.0]))),
     "nan_parameter": _accepts("C14/constructors-accept-nan-parameters", "normal", (float("nan"), 1.0)),
 }
 
